@@ -129,3 +129,12 @@ pub open spec fn occ<K: serde::de::KeyView>(e: Seq<(DeKey, int)>, k: int, id: K)
 {
     if k <= 0 { None } else if K::key_view(e[k - 1].0) == Some(id) { Some(k - 1) } else { occ(e, k - 1, id) }
 }
+
+// ---- the round trip of a whole message as a lemma over the two contracts.  What was written comes back as it was written: the entry
+// (U8(k), Leaf(id)) is presented on input as (DeKey::U(k), id) -- same order -- and the item id decodes, for the member's type, to
+// the value it was written from (`axiom_member_round_trip`: the round trip of each member *value* is assumed, see the unit reports)
+pub open spec fn wire_entry(e: (SerTree, SerTree)) -> (DeKey, int) {
+    (match e.0 { SerTree::U8(k) => DeKey::U(k as int), _ => DeKey::Other }, match e.1 { SerTree::Leaf(id) => id, _ => 0int })
+}
+pub open spec fn wire_of(e: Seq<(SerTree, SerTree)>) -> Seq<(DeKey, int)> { Seq::new(e.len(), |i: int| wire_entry(e[i])) }
+pub broadcast axiom fn axiom_member_round_trip<T>(v: T) ensures #[trigger] de_val::<T>(ser_leaf(v)) == v;
